@@ -10,6 +10,7 @@ import CookModel.Lemmas.ConsumersNoPanic
 import CookModel.Lemmas.InlineScan
 import CookModel.Props.C09
 import CookModel.Props.C04
+import CookModel.Lemmas.TableFacts
 /-
   C03  No input makes a public entry point panic, overflow or hang.
 
@@ -826,5 +827,39 @@ example : DigitsNotWs toyCharSpec := by
   have h2 : c.val ≤ 57 := h.2
   simp only [toyCharSpec, Char.isWhitespace, Bool.or_eq_false_iff, decide_eq_false_iff_not]
   refine ⟨⟨⟨?_, ?_⟩, ?_⟩, ?_⟩ <;> intro e <;> subst e <;> revert h1 h2 <;> decide
+
+/-! ### the character table of the real lexer: `DigitsNotWs` is proved for the generated table
+    (`Lemmas/TableFacts.lean`: no range of the list with the `char::is_whitespace` bit meets `0`–`9`) -/
+
+/-- an ASCII digit is not Unicode white space in the table generated from the real code -/
+theorem C03_digitsNotWs_real : DigitsNotWs realCharSpec := fun c h => tbl_digit_not_uws c (by unfold isAsciiDigitC at h; exact h)
+
+example : (⟨realCharSpec, ⟨0⟩, fun _ => none, fun _ _ => .ok, fun c => [c], 0⟩ : Env).cs = realCharSpec := rfl
+
+/-- `C03_inline_scan_terminates` at the character table generated from the real lexer (any environment whose
+    table is that one, as the driver's `realEnv`):
+    the side condition `DigitsNotWs` is proved for that table (`Lemmas/TableFacts.lean`), not assumed -/
+theorem C03_inline_scan_terminates_real {α : Type} [Arith α] (env : Env) (hreal : env.cs = realCharSpec) :
+    (∀ (pre rest a : Str), (inlineStep (α := α) env pre rest).after = some a → a.length < rest.length) ∧
+    (∀ (fuel : Nat) (pre rest : Str) (hit : InlineHit α),
+      findInlineQuantity env fuel pre rest = some hit → hit.after.length < rest.length) ∧
+    (∀ (f : Nat) (pre rest : Str), rest.length < f →
+      findInlineQuantity (α := α) env f pre rest = findInlineQuantity env (rest.length + 1) pre rest) ∧
+    (∀ (f : Nat) (hay : Str) (items : List Item) (iq : Array (Quantity (Value α))), hay.length < f →
+      inlineLoop env f hay items iq = inlineLoop env (hay.length + 1) hay items iq) ∧
+    (∀ (pre rest : Str), findInlineQuantity (α := α) env (rest.length + 1) pre rest =
+      match inlineStep (α := α) env pre rest with
+      | .stop => none
+      | .hit h => some h
+      | .retry pre' after => findInlineQuantity env (after.length + 1) pre' after) ∧
+    (∀ (hay : Str) (items : List Item) (iq : Array (Quantity (Value α))),
+      inlineLoop env (hay.length + 1) hay items iq =
+        match findInlineQuantity (α := α) env (hay.length + 1) [] hay with
+        | some hit =>
+          inlineLoop env (hit.after.length + 1) hit.after
+            ((if hit.before.isEmpty then items else items ++ [.text hit.before]) ++ [.inlineQuantity iq.size])
+            (iq.push hit.q)
+        | none => (if hay.isEmpty then items else items ++ [.text hay], iq)) :=
+  C03_inline_scan_terminates env (hd := hreal ▸ C03_digitsNotWs_real)
 
 end Cook
